@@ -78,7 +78,7 @@ func returnShapesWith(fn *ssa.Function, render func(ssa.Value) string) []string 
 func c13Shapes(p *load.Program, r *oblig.Report) {
 	const rule = "C13.R1 balancers return an offered partition through the reference operator chain"
 	want := map[string][]string{
-		"(*RoundRobin).balance":     {"partitions[(int((rr.counter / uint32(rr.ChunkSize))) % len(partitions))]"},
+		"(*RoundRobin).balance":     {"partitions[(int((uint64(rr.counter) / uint64(rr.ChunkSize))) % len(partitions))]"},
 		"(*RoundRobin).Balance":     {"balance(rr,partitions)"},
 		"(*Hash).Balance":           {"Balance(h.rr,msg,partitions)", "int(φ{(int32(H.Sum32()) % int32(len(partitions))) | -(int32(H.Sum32()) % int32(len(partitions)))})"},
 		"(*ReferenceHash).Balance":  {"Balance(h.rr,msg,partitions)", "int(((2147483647 & int32(H.Sum32())) % int32(len(partitions))))"},
@@ -305,6 +305,22 @@ func c13Counters(p *load.Program, r *oblig.Report) {
 		}
 	}
 	_ = ld
+	// the counter is divided by the whole ChunkSize: a conversion of ChunkSize to a narrower integer makes 2^32 a
+	// division by zero and 2^32+2 a chunk of 2
+	narrowed := ""
+	an.EachInstr(rr, func(ins ssa.Instruction) {
+		if bo, ok := ins.(*ssa.BinOp); ok && bo.Op == token.QUO {
+			if cv, isCv := bo.Y.(*ssa.Convert); isCv && strings.HasSuffix(clean(an.Shape(cv.X)), ".ChunkSize") {
+				if b, isB := cv.Type().Underlying().(*types.Basic); isB {
+					switch b.Kind() {
+					case types.Int8, types.Int16, types.Int32, types.Uint8, types.Uint16, types.Uint32:
+						narrowed = "ChunkSize is converted to " + b.Name() + " before the division"
+					}
+				}
+			}
+		}
+	})
+	r.Check(narrowed == "", "C13.R1 balancers return an offered partition through the reference operator chain", "RoundRobin.balance divides its counter by the full ChunkSize", p.Pos(rr.Pos()), "uint64(counter) / uint64(rr.ChunkSize)", narrowed)
 	r.Check(okInc, rule, "RoundRobin.balance reads and increments its counter by one under its mutex", p.Pos(rr.Pos()), "rr.counter++ with RoundRobin.mutex held for the read used as index and for the increment", "not recognised (or not under the mutex)")
 	// every read of counter in the function is under the mutex
 	okReads := true
